@@ -11,7 +11,7 @@ import shutil
 
 from . import seams
 
-ARTEFACT_DIRS = ("include", "src", "python")
+ARTEFACT_DIRS = ("include", "src", "python", "tests")
 ARTEFACT_FILES = ("CMakeLists.txt", "jac_pattern.dat")
 _VERSION_RE = re.compile(rb"VERSION \d\d\.\d\d")
 
@@ -170,6 +170,18 @@ class Session:
                 shutil.rmtree(out, ignore_errors=True)
                 self.net.to_code(solver=st["solver"], method=st["method"], device=st["device"], path=out)
                 res = {"art": artefact(out)}
+            elif kind == "export":
+                # Network.export(): network file + config + sources + generic test programs
+                shutil.rmtree(os.path.join(self.dir, "exported", self.desc["name"]), ignore_errors=True)
+                os.makedirs(os.path.join(self.dir, "exported"), exist_ok=True)
+                self.net.export(self.desc["name"], solver=st["solver"], method=st["method"], device=st["device"],
+                                prefix=os.path.join(self.dir, "exported"), overwrite=True)
+                root = os.path.join(self.dir, "exported", self.desc["name"])
+                art = artefact(root)
+                rf = os.path.join(root, "reactions.naunet")
+                if os.path.exists(rf):
+                    art["reactions.naunet"] = hashlib.sha256(open(rf, "rb").read()).hexdigest()
+                res = {"art": art}
             elif kind == "cli_render":
                 res = {"art": self._cli_render(st)}
             else:
